@@ -3,6 +3,7 @@ from vf.harness import exc_str
 from vf.model import dexw as W
 
 MOD = "vf.checks.c06"
+HOLDER = "holder_of_the_const_strings"  # the only method with code; (III)V so that it cannot coincide with a generated ()V method
 
 
 def u16(s):
@@ -89,7 +90,7 @@ def shard(ctx, arg):
         for i, s in enumerate(strs[:20]):
             insns.append(("const-string" if i % 2 == 0 else "const-string/jumbo", 0, W.Str(s)))
         insns.append(("return-void",))
-        c.add_method("m", "V", (), W.ACC_STATIC | W.ACC_PUBLIC, W.Code(1, 0, 0, insns))
+        c.add_method(HOLDER, "V", ("I", "I", "I"), W.ACC_STATIC | W.ACC_PUBLIC, W.Code(4, 3, 0, insns))
         named = [s for s in strs if s][:3]
         for i, s in enumerate(named):
             c.add_field(s, "I", W.ACC_STATIC)
@@ -131,11 +132,11 @@ def shard(ctx, arg):
         fn = sorted(u16(f.get_name()) for f in cls.get_fields())
         if fn != sorted(u16(s) for s in named):
             ctx.violation("field-name", "field names differ from the strings they reference", {"got": fn, "want": sorted(u16(s) for s in named), "dex": hexd})
-        mn = sorted(u16(x.get_name()) for x in cls.get_methods() if x.get_name() != "m")
+        mn = sorted(u16(x.get_name()) for x in cls.get_methods() if x.get_code() is None)
         if mn != sorted(u16(s) for s in named):
             ctx.violation("method-name", "method names differ from the strings they reference", {"got": mn, "want": sorted(u16(s) for s in named), "dex": hexd})
         for meth in cls.get_methods():
-            if meth.get_name() == "m" and meth.get_code():
+            if meth.get_code():
                 consts = [ins for ins in meth.get_instructions() if ins.get_op_value() in (0x1A, 0x1B)]
                 for ins, s in zip(consts, strs[:20]):
                     ctx.count("const_strings_compared")
